@@ -308,8 +308,15 @@ def parse_detector_grammar(tokens):
     if len(rules) != len(re.findall(r'G\.add\(', seg)):
         raise Refuse('macro.cpp: some G.add lines were not understood')
     # slot -> non-terminal switch
-    sw = txt[txt.index('std::for_each(md.rule.begin()'):]
-    sw = sw[:sw.index('G.add(MACRO')]
+    # the loop over md.rule (any spelling: for_each with a lambda, range-for, index loop) that maps pattern tokens to symbols
+    end_ = txt.index('G.add(MACRO')
+    cands = [m.start() for m in re.finditer(r'md\.rule', txt[:end_])]
+    starts = [c for c in cands if 'sym.push_back' in txt[c:end_] and 'switch' in txt[c:end_]]
+    if not starts:
+        raise Refuse('macro.cpp: the loop mapping pattern tokens to grammar symbols was not found')
+    # the last occurrence of md.rule before the switch
+    sw0 = max(c for c in starts if txt[c:end_].count('switch') >= 1 and txt.rfind('switch', 0, end_) > c)
+    sw = txt[sw0:end_]
     slots = re.findall(r'case\s+Token::([A-Z_]+)\s*:\s*sym\.push_back\(([A-Z_]+)\)', sw)
     if not re.search(r'default:\s*sym\.push_back\(term\(t\.t\)\)', sw):
         raise Refuse('macro.cpp: default slot mapping changed')
@@ -336,10 +343,10 @@ def parse_consts():
         raise Refuse('parse.hpp: THEO_MACRO_PASSES not found')
     passes = int(m.group(1))
     pc = read('Compiler/src/parse.cpp')
-    m = re.search(r'std::string standard_macros =\s*"(.*?)";', pc, flags=re.S)
+    m = re.search(r'\bstandard_macros\s*=\s*((?:"(?:[^"\\]|\\.)*"\s*)+);', pc, flags=re.S)
     if not m:
         raise Refuse('parse.cpp: standard_macros literal not found')
-    lit = m.group(1)
+    lit = ''.join(re.findall(r'"((?:[^"\\]|\\.)*)"', m.group(1), flags=re.S))   # adjacent literals concatenate
     lit = lit.replace('\\\n', '')          # line continuations
     out = bytearray()
     i = 0
@@ -351,15 +358,17 @@ def parse_consts():
         else:
             out.append(ord(lit[i]))
             i += 1
-    m = re.search(r'files\.insert\(std::make_pair\("([^"]*)",\s*standard_macros\)\)', pc)
+    # the standard text is entered under a literal name WITHOUT overwriting a supplied file of that name
+    # (insert / emplace / try_emplace — not operator[] or insert_or_assign)
+    m = re.search(r'files\.(?:insert\(\s*(?:std::make_pair\(|\{)|emplace\(|try_emplace\()\s*"([^"]*)"\s*,\s*(?:std::string\(\s*)?standard_macros', pc)
     if not m:
         raise Refuse('parse.cpp: standard file insertion changed')
     stdname = m.group(1)
-    m = re.search(r'std::string incl_phrase = "((?:[^"\\]|\\.)*)";', pc)
+    m = re.search(r'\bincl_phrase\s*=\s*"((?:[^"\\]|\\.)*)"\s*;', pc)
     if not m:
         raise Refuse('parse.cpp: incl_phrase not found')
     phrase = m.group(1).replace('\\"', '"')
-    if not re.search(r'apply_macros\(mer\.tokens,\s*mer\.macros,\s*THEO_MACRO_PASSES\)', pc):
+    if not re.search(r'apply_macros\(\s*(?:std::move\(\s*)?mer\.tokens\s*\)?\s*,\s*mer\.macros\s*,\s*THEO_MACRO_PASSES\s*\)', pc):
         raise Refuse('parse.cpp: apply_macros is no longer called with THEO_MACRO_PASSES')
     g = read('Compiler/src/gen.cpp')
     m = re.search(r'if \(file == "([^"]*)"\)\s*return;', g)
